@@ -59,6 +59,7 @@ def generate_lemmas(names):
 def generate(qualnames, tier="quick", exclude=()):
     """-> (obligations, per_function_info)"""
     obligations, info = [], {}
+    used_lemmas = set()
     for q in qualnames:
         if q not in CONTRACTS:
             info[q] = {"status": "anchor-mismatch", "reason": "no contract registered"}
@@ -68,8 +69,13 @@ def generate(qualnames, tier="quick", exclude=()):
         try:
             ex = Exec(q, c, tier)
             obs = ex.run()
-            info[q] = {"status": "ok", "obligations": len(obs), "gen_s": round(time.time() - t0, 3), "assumed": sorted(ex.assumed), "notes": ex.notes}
+            info[q] = {"status": "ok", "obligations": len(obs), "gen_s": round(time.time() - t0, 3), "assumed": sorted(ex.assumed), "notes": ex.notes,
+                       "lemmas": sorted(getattr(ex, "used_lemmas", ()))}
             obligations.extend(obs)
+            for ln in sorted(getattr(ex, "used_lemmas", ())):
+                if ln not in used_lemmas:
+                    used_lemmas.add(ln)
+                    obligations.extend(generate_lemmas([ln]))  # a lemma whose instance is assumed is proved in the same run
         except Unsupported as e:
             info[q] = {"status": "unsupported", "reason": str(e)}
             if os.environ.get("VERIF_DEBUG"):
